@@ -101,6 +101,19 @@ def lake_build(targets):
     return rc == 0, out, errs, dt
 
 
+def theorem_at(relpath, line):
+    """name of the theorem/def whose proof contains the given line of a Lean source file"""
+    try:
+        src = open(os.path.join(LEAN, relpath)).read().splitlines()
+    except OSError:
+        return None
+    for i in range(min(line, len(src)) - 1, -1, -1):
+        m = re.match(r"\s*(?:private\s+|protected\s+)?(?:theorem|lemma|def|example|instance)\s+([^\s:(\[{]+)?", src[i])
+        if m:
+            return f"{relpath}:{m.group(1) or 'example'}"
+    return None
+
+
 def audit(modules):
     rc, out, dt = sh(["lake", "env", "lean", "--run", "Audit.lean"] + modules, cwd=LEAN)
     thms = []
@@ -233,7 +246,9 @@ def main(argv):
         log(f"lake build {' '.join(spec['lean_modules'])}: {'ok' if ok else 'FAILED'} ({dt:.1f}s)")
         if not ok:
             names = sorted(set(re.findall(r"([\w/]+\.lean):(\d+):\d+: error", out)))
-            broken.append(("proof", ", ".join(f"{a}:{b}" for a, b in names) or "lake build", "\n".join(out.splitlines()[-60:])))
+            thm_names = sorted(set(filter(None, (theorem_at(a, int(b)) for a, b in names))))
+            label = ", ".join(thm_names) or ", ".join(f"{a}:{b}" for a, b in names) or "lake build"
+            broken.append(("proof", label, "\n".join(out.splitlines()[-60:])))
         else:
             ok, thms, aout = audit(spec["lean_modules"])
             if not ok or not thms:
